@@ -439,7 +439,25 @@ func (bl *ToBoltListener) ExitAndExpr(c *zitiql.AndExprContext) {
 	left := bl.popNode()
 
 	if !bl.HasError() {
+		// The grammar parses the operand following AND as far to the right as it can, so
+		// 'a and b or c' arrives here as and(a, or(b, c)). AND binds tighter than OR, so unless
+		// the OR was written in parentheses, re-associate to or(and(a, b), c)
+		if orNode, ok := right.(*BooleanLogicExprNode); ok && orNode.op == OrOp && !orNode.grouped {
+			bl.pushStack(&BooleanLogicExprNode{
+				left:  &BooleanLogicExprNode{left: left, right: orNode.left, op: AndOp},
+				right: orNode.right,
+				op:    OrOp,
+			})
+			return
+		}
 		bl.pushStack(&BooleanLogicExprNode{left: left, right: right, op: AndOp})
+	}
+}
+
+func (bl *ToBoltListener) ExitGroup(c *zitiql.GroupContext) {
+	bl.printDebug(c)
+	if node, ok := bl.peekStack().(*BooleanLogicExprNode); ok {
+		node.grouped = true
 	}
 }
 
